@@ -237,6 +237,10 @@ class Gen:
         # tasks keep their own discipline: do not pop a task body label here
         top = st[-1] if st else None
         can_pop = top is not None and top != W.TASK_BODY_LABEL.get(m)
+        if (can_pop and self.k.get("pause_needs_region") and len(st) >= 2 and st[-2] == W.TASK_BODY_LABEL.get(m)
+                and th.bstack.get(m) and th.bstack[m][-1].state == "paused"):
+            # the runtimes resume a body before leaving the region it paused in
+            can_pop = False
         if can_pop and (depth >= self.k["maxdepth"] or r.chance(45)):
             self.emit(th, POP_OF[(m, ch, top)])
             return True
@@ -340,8 +344,11 @@ class Gen:
             opts.append(("create", 4 if len(tasks) < 2 else 1))
         if top is not None and top.state == "running" and ss and ss[-1] == body_label:
             opts.append(("end", 4))
-            if "pause" in top.task.flags:
+            if "pause" in top.task.flags and not self.k.get("pause_needs_region"):
                 opts.append(("pause", 4))
+        if (self.k.get("pause_needs_region") and top is not None and top.state == "running" and ss
+                and ss[-1] != body_label and "pause" in top.task.flags):
+            opts.append(("pause", 6))
         if top is not None and top.state == "paused":
             opts.append(("resume", 5))
         runnable = self.runnable_tasks(th, m)
